@@ -3,6 +3,7 @@ CONSTANTS
   MaxEvents = 6
   Shapes <- MC_ShapesThorough
   FullPermBins = 4
+  MaxCalls = 2
   Bug = "none"
 INVARIANT LayoutWellFormed
 INVARIANT ResultPerEvent
@@ -11,3 +12,4 @@ INVARIANT OrderPreserved
 INVARIANT WeightsUntouched
 INVARIANT EdgesSameFunction
 INVARIANT InputUntouched
+INVARIANT Repeatable
